@@ -1051,4 +1051,76 @@ theorem branch_head_history {h : Hist} {o : LoadOpts} {m : LMap} (hl : load h o 
     intro y hy hly
     exact h4 y ((hh y).mpr hy) (by rw [hs y]; exact hly)
 
+/-! ### `+N` on an empty version table: the walk starts at the one base -/
+
+/-- the first step up from the empty state goes to the single revision without `down_revision`
+(`RevisionMap.bases`, dependent roots included); two such roots make the walk ambiguous -/
+theorem walkStep_up_base (m : LMap) (nxt : Option Id) (mk : Bool)
+    (h : walkStep m true none none false = .ok (some (nxt, mk))) :
+    ∃ c, nxt = some c ∧ mk = false ∧ m.bases = [c] := by
+  unfold walkStep at h
+  simp only [if_true, bind, Except.bind, pure, Except.pure] at h
+  obtain ⟨c, hc, h1, h2⟩ := children_single h
+  exact ⟨c, h1, h2, hc⟩
+
+theorem walk_up_from_base (m : LMap) (k : Nat) (r : Id)
+    (h : walk.go m (1 : Int) none true (k + 1) none false = .ok (some (some r))) :
+    ∃ b, m.bases = [b] ∧ PathN m.nextrev k b r := by
+  simp only [walk.go, bind, Except.bind] at h
+  have hdec : (decide ((1 : Int) > 0)) = true := by decide
+  simp only [hdec] at h
+  cases hv : walkStep m true none none false with
+  | error e => simp [hv] at h
+  | ok v =>
+    simp only [hv] at h
+    cases v with
+    | none => simp [pure, Except.pure] at h
+    | some pr =>
+      obtain ⟨nxt, mk⟩ := pr
+      simp only at h
+      obtain ⟨c, h1, h2, h3⟩ := walkStep_up_base m nxt mk hv
+      subst h1; subst h2
+      exact ⟨c, h3, walk_up_exact m none k c r h⟩
+
+/-- **`+N` on an empty version table counts from the one root**: for every loaded history and every
+target the pattern splits into (no label, no revision, `+N`): if `_parse_upgrade_target` answers a
+revision `i` while no row is in the table, then the history has exactly one revision without
+`down_revision` (a root that carries `depends_on` counts: seeded change C16-m looked at
+`_real_bases` and let the walk start on the other root) and exactly `N-1` `down_revision` links, as
+written in the files, lead from `i` down to it. -/
+theorem rel_up_empty {h : Hist} {o : LoadOpts} {m : LMap} (hl : load h o = .ok m)
+    (hu : (h.map (·.id)).Nodup) (hd : ∀ r ∈ h, ∀ d ∈ r.down, d ∈ h.map (·.id))
+    (t : String) (rel : Int) (i : Id)
+    (hm : matchRelative t = some (none, none, rel)) (hpos : rel > 0)
+    (hres : parseUpgradeTarget m [] t = .ok [i]) :
+    ∃ b, (∀ x, x ∈ basesOf h ↔ x = b) ∧ stepsDown h (rel.natAbs - 1) i (some b) = true := by
+  have L := loaded_of_load hl hu hd
+  obtain ⟨k, hk⟩ : ∃ k, rel.natAbs = k + 1 := ⟨rel.natAbs - 1, by omega⟩
+  unfold parseUpgradeTarget at hres
+  simp only [hm, hpos, if_true, bind, Except.bind, pure, Except.pure] at hres
+  unfold walk at hres
+  rw [walk_go_pos m rel hpos, hk] at hres
+  cases hw : walk.go m (1 : Int) none true (k + 1) none false with
+  | error e => simp [hw] at hres
+  | ok w =>
+    simp only [hw] at hres
+    have := up_result hres
+    subst this
+    obtain ⟨b, hb, hp⟩ := walk_up_from_base m k i hw
+    refine ⟨b, ?_, ?_⟩
+    · intro x
+      rw [← (C15.heads_bases_history hl hu hd).2.2.1 x, hb]
+      simp
+    · have hrev : PathN m.downOf k i b :=
+        pathN_reverse (fun a c hc => ((nextrev_iff m L.ids_nodup a c).mp hc).2) k b i hp
+      rw [hk]
+      exact (stepsDown_iff h k i b).mpr (pathN_congr (fun j => downOf_eq_downParents hl hu j) k i b hrev)
+
+/-- the hypotheses of `rel_up_empty` are met by a history with a single root; with a second root
+that carries `depends_on` the same target is refused (the walk is ambiguous) -/
+example : (match (load [⟨"a", [], [], []⟩, ⟨"b", ["a"], [], []⟩, ⟨"c", ["b"], [], []⟩]).bind (fun m => parseUpgradeTarget m [] "+2") with
+    | .ok r => r == ["b"] | .error _ => false) = true := by decide +kernel
+example : (match (load [⟨"a", [], [], []⟩, ⟨"b", ["a"], [], []⟩, ⟨"x", [], ["a"], []⟩]).bind (fun m => parseUpgradeTarget m [] "+1") with
+    | .ok _ => false | .error _ => true) = true := by decide +kernel
+
 end C16
